@@ -33,7 +33,15 @@ func runAndCompare(t *testing.T, sc *Scenario, rec *Recorder) ([]Diff, *runFacts
 	if o.Err != nil || o.Run == nil {
 		f.Failed = true
 		rec.Label("other:run-error")
-		return []Diff{{"C09", "run-error", fmt.Sprintf("run failed: %v", o.Err)}}, f
+		ds := []Diff{{"C09", "run-error", fmt.Sprintf("run failed: %v", o.Err)}}
+		if o.Wire != nil {
+			// what was put on the wire is judged whatever the outcome of the run
+			ds = append(ds, CheckEmission(sc, o)...)
+			if o.Wire.Overrun {
+				ds = append(ds, Diff{"C08", "run-never-ends", fmt.Sprintf("run stopped by the harness watchdog after %v of virtual time", o.Wire.MaxVirtual)})
+			}
+		}
+		return ds, f
 	}
 	ds, info := CheckRun(sc, o)
 	f.Info = info
